@@ -213,6 +213,7 @@ def main():
                     disagreements.append({"what": "run with argv %s" % argv, "model": mt[:100], "impl": it[:100], "capture": case.capture.hex(), "keylog": case.keylog, "args": argv})
     if m:
         ck.cov["oracle_queries"] = m.queries
+        ck.cov["model_runs_skipped"] = m.skipped
         m.close()
     impl.cleanup()
     ck.cov["traces_validated_against_impl"] = ncli + hist["model_runs"]
